@@ -63,6 +63,8 @@ pub struct Report {
     pub n_refs: usize,
     /// (caller function, callee name) for every call whose callee is a plain identifier
     pub calls: Vec<(String, String)>,
+    /// (enclosing function, name) for every identifier reference that is not a local
+    pub global_refs: Vec<(String, String)>,
 }
 
 fn ty_key(t: &GoType) -> String {
@@ -217,6 +219,8 @@ impl<'a> Walker<'a> {
                 return;
             }
         }
+        let cur = self.cur_fn.clone();
+        self.rep.global_refs.push((cur, name.to_string()));
         if let Some(&id) = self.package.get(name) {
             self.decls[id].refs += 1;
             let ok = match (&self.decls[id].ty, ty) {
